@@ -482,6 +482,12 @@ def case_est(ctx, res, p):
             res.count("est:nystroem_kept_equals_landmark_rows")
         if gp in FULLFAM and p.get("lm") is not None:
             res.count("est:full_family_with_explicit_landmarks")
+        if gp in FULLFAM and p.get("lm") is None and lmr is not None:
+            # a non-sparse model computes no landmarks (compute_landmarks returns None for n_landmarks = 0 or >= n unless the
+            # type is 'fixed'); rows left on the estimator contradict n_landmarks and make every repeated fit fail
+            res.oracle_fail(f"a {gp} model without user landmarks keeps {lmr} landmark rows", p,
+                            detail={"gp": gp, "landmark_rows": lmr, "n_landmarks": p["nl"]}, signature="C15:full-family-keeps-landmarks")
+
         # effective inputs as documented
         gp_req = None if p["gp"] is None else (p["gp"][1] if p["gp"][0] == "E" else doc_from_string(p["gp"][1]))
         lm_user = p.get("lm")
